@@ -2,6 +2,7 @@ package sym
 
 import (
 	"crypto/sha256"
+	"sort"
 	"fmt"
 	"go/token"
 	"go/types"
@@ -341,6 +342,15 @@ func registerIntrinsics(m *Machine) {
 		}
 		return out
 	}
+	in["sym:symAnd"] = func(m *Machine, fr *frame, a []value) value { return m.T.And(a[0].(*Term), a[1].(*Term)) }
+	in["sym:symOr"] = func(m *Machine, fr *frame, a []value) value { return m.T.Or(a[0].(*Term), a[1].(*Term)) }
+	in["sym:symNot"] = func(m *Machine, fr *frame, a []value) value { return m.T.Not(a[0].(*Term)) }
+	in["sym:symIteInt"] = func(m *Machine, fr *frame, a []value) value {
+		return m.T.Ite(a[0].(*Term), a[1].(*Term), a[2].(*Term))
+	}
+	in["sym:symDFAAccepts"] = func(m *Machine, fr *frame, a []value) value {
+		return m.dfaAccepts(a[0].([]value), int(m.concretize(a[1].(*Term))), a[2].([]value), a[3].(*Term), m.strBytes(a[4].(Str)), a[5].([]value))
+	}
 	in["sym:symConcretize"] = func(m *Machine, fr *frame, a []value) value {
 		t := a[0].(*Term)
 		return m.T.Const(t.W, m.concretize(t))
@@ -373,3 +383,105 @@ func (m *Machine) indexString(hay, needle []*Term) *Term {
 var opaqueRType = types.NewNamed(types.NewTypeName(token.NoPos, nil, "symgo.rtype", nil), types.NewStruct(nil, nil), nil)
 
 var _ = fmt.Sprint
+
+// dfaAccepts simulates a concrete table-driven DFA over symbolic bytes with a one-hot state
+// vector: cur[s] is the condition under which the automaton is in state s.
+func (m *Machine) dfaAccepts(trans []value, nc int, class []value, start *Term, bs []*Term, accept []value) *Term {
+	k := func(v value) int {
+		t := v.(*Term)
+		if !t.IsConst() {
+			panic(unsupported("symDFAAccepts: tables must be concrete"))
+		}
+		return int(t.K)
+	}
+	if !start.IsConst() {
+		panic(unsupported("symDFAAccepts: start state must be concrete"))
+	}
+	nstates := len(trans) / nc
+	if len(class) != 256 || len(accept) < nstates {
+		panic(abort{"engine", "symDFAAccepts: malformed tables"})
+	}
+	// bytes of each class
+	byClass := make([][]int, nc)
+	for b := 0; b < 256; b++ {
+		c := k(class[b])
+		byClass[c] = append(byClass[c], b)
+	}
+	cur := map[int]*Term{int(start.K): m.T.True}
+	for _, b := range bs {
+		next := map[int]*Term{}
+		var order []int
+		if b.IsConst() {
+			c := k(class[b.K])
+			for s, cond := range cur {
+				t := k(trans[s*nc+c])
+				if old, ok := next[t]; ok {
+					next[t] = m.T.Or(old, cond)
+				} else {
+					next[t] = cond
+					order = append(order, t)
+				}
+			}
+			cur = next
+			continue
+		}
+		isClass := make([]*Term, nc)
+		states := make([]int, 0, len(cur))
+		for s := range cur {
+			states = append(states, s)
+		}
+		sort.Ints(states)
+		for _, s := range states {
+			cond := cur[s]
+			// group classes by target
+			tgt := map[int][]int{}
+			var tord []int
+			for c := 0; c < nc; c++ {
+				if len(byClass[c]) == 0 {
+					continue
+				}
+				t := k(trans[s*nc+c])
+				if _, ok := tgt[t]; !ok {
+					tord = append(tord, t)
+				}
+				tgt[t] = append(tgt[t], c)
+			}
+			for _, t := range tord {
+				var in *Term
+				if len(tord) == 1 {
+					in = m.T.True
+				} else {
+					in = m.T.False
+					for _, c := range tgt[t] {
+						if isClass[c] == nil {
+							isClass[c] = m.inSet(b, byClass[c])
+						}
+						in = m.T.Or(in, isClass[c])
+					}
+				}
+				cnd := m.T.And(cond, in)
+				if cnd == m.T.False {
+					continue
+				}
+				if old, ok := next[t]; ok {
+					next[t] = m.T.Or(old, cnd)
+				} else {
+					next[t] = cnd
+				}
+			}
+		}
+		cur = next
+	}
+	res := m.T.False
+	states := make([]int, 0, len(cur))
+	for s := range cur {
+		states = append(states, s)
+	}
+	sort.Ints(states)
+	for _, s := range states {
+		if k(accept[s]) != 0 {
+			res = m.T.Or(res, cur[s])
+		}
+	}
+	return res
+}
